@@ -84,7 +84,7 @@ def b64(bs: bytes) -> Dict[str, str]:
 def mutate_bytes(rng: random.Random, text: str) -> bytes:
     bs = bytearray(text.encode("utf-8"))
     for _ in range(rng.choice([1, 1, 1, 2, 3, 5])):
-        op = rng.randrange(6)
+        op = rng.randrange(7)
         pos = rng.randrange(len(bs) + 1) if bs else 0
         if op == 0 and bs:
             del bs[min(pos, len(bs) - 1)]
@@ -103,6 +103,13 @@ def mutate_bytes(rng: random.Random, text: str) -> bytes:
         elif op == 5 and bs:
             a = min(pos, len(bs) - 1)
             bs[a] ^= 1 << rng.randrange(8)
+        elif op == 6:
+            # a blank-like character at the very end (after the last token), or at a random place
+            ch = rng.choice(BLANK_LIKE).encode("utf-8") + rng.choice([b"", b"\n", b" \n", b"\t"])
+            if rng.random() < 0.7:
+                bs.extend(ch)
+            else:
+                bs[pos:pos] = ch
     return bytes(bs)
 
 
@@ -325,6 +332,56 @@ def grammar_cover() -> List[Input]:
 
 
 # ---------------------------------------------------------------------------------------
+# dotted references: every kind of definition as first / middle / last component, in every
+# position a dotted identifier may appear (type, constant, array capacity, option / const value)
+# ---------------------------------------------------------------------------------------
+
+DOTTED_PRELUDE = ("proto a\nimport lib \"b.bitproto\"\nconst K = 2\ntype Al = uint3\n"
+                  "enum Color : uint2 {\n    RED = 0\n}\n"
+                  "message Pair {\n    message Inner {\n        bool v = 1\n    }\n    uint3 left = 1\n    Inner right = 2\n}\n")
+
+
+def dotted_references() -> List[Input]:
+    out: List[Input] = []
+    paths = ["Pair.Inner", "Pair.left", "Pair.left.v", "Pair.Inner.v", "Pair.Inner.v.w", "Pair.Nope.v", "K.x", "K.x.y",
+             "Al.x.y", "Color.RED", "Color.RED.v", "Color.RED.v.w", "lib.B", "lib.BK", "lib.BK.n", "lib.B.x", "lib.B.x.y",
+             "lib.BE.Z", "lib.BE.Z.q", "lib.Nope.B", "Nope.Pair.Inner", "lib.lib.B", "a.Pair", "Pair.Pair.Inner"]
+    for pth in paths:
+        for k, use in enumerate((f"message U {{\n    {pth} f = 1\n}}\n", f"message U {{\n    bool[{pth}] f = 1\n}}\n",
+                                 f"const C = {pth}\n", f"const C = 1 + {pth}\n", f"option c.name_prefix = {pth}\n",
+                                 f"type T = {pth}[2]\n")):
+            out.append({"files": {"main.bitproto": DOTTED_PRELUDE + use, "b.bitproto": IMPORTED}, "main": "main.bitproto",
+                        "origin": f"dotted-reference:{pth}:{k}"})
+    return out
+
+
+# ---------------------------------------------------------------------------------------
+# characters that Python's str.split()/isspace() treat as blank but the lexer does not skip
+# (t_ignore is space, tab, CR), placed where only blanks / newlines follow up to the end of input
+# ---------------------------------------------------------------------------------------
+
+BLANK_LIKE = ["\x0b", "\x0c", "\x1c", "\x1d", "\x1e", "\x1f", "\x85", "\xa0", "\u1680", "\u2000", "\u2003", "\u200a",
+              "\u2028", "\u2029", "\u202f", "\u205f", "\u3000", "\ufeff", "\u200b"]
+
+
+def trailing_blank_like() -> List[Input]:
+    out: List[Input] = []
+    base = "proto a\nmessage M {\n    uint3 x = 1\n}"
+    for ch in BLANK_LIKE:
+        for k, tail in enumerate(("", "\n", " \t\r\n\n  ", ch + "\n" + ch)):
+            for pre in ("\n", " "):
+                if k in (1, 2) and pre == " ":
+                    continue
+                out.append({"files": {"main.bitproto": base + pre + ch + tail}, "main": "main.bitproto",
+                            "origin": f"trailing-blank-like:U+{ord(ch):04X}:{k}"})
+        out.append({"files": {"main.bitproto": ch}, "main": "main.bitproto",
+                    "origin": f"trailing-blank-like:U+{ord(ch):04X}:alone"})
+        out.append({"files": {"main.bitproto": "proto a\nconst S = \"s\" " + ch + " \n"}, "main": "main.bitproto",
+                    "origin": f"trailing-blank-like:U+{ord(ch):04X}:after-string"})
+    return out
+
+
+# ---------------------------------------------------------------------------------------
 # identifier shapes: every definition kind x names the lexer accepts ([a-zA-Z_][a-zA-Z0-9_]*)
 # in the shapes the case-style converters of the renderers and the linter have to survive
 # ---------------------------------------------------------------------------------------
@@ -333,6 +390,35 @@ NAME_SHAPES = ["_Frame", "Frame_", "Link__State", "_", "__", "___", "_x", "x_", 
                "A_B", "a_1", "_1", "a1", "A1b2", "x9_", "a__1", "ABC", "ABC_DEF", "HTTPServer2", "mixedCase",
                "PascalCase", "snake_case_name", "_lead_and_trail_", "a_B_c_D", "x1_2_3", "RGB2HSV",
                "N" * 300, "long_" * 60 + "x"]
+
+
+# long runs of one character class followed by another class, and repeated groups: what a
+# regex with a nested / ambiguous quantifier chokes on (time doubles per character)
+LONG_RUNS = [16, 24, 32, 48, 64]
+
+
+def long_names(n: int) -> List[Tuple[str, str]]:
+    k = max(1, n // 3)
+    return [("upper-then-lower", "U" * n + "config"), ("upper-then-digit-lower", "U" * n + "9x"),
+            ("letter-digits-upper", "a" + "7" * n + "B"), ("upper-digit-groups-lower", "AB1" * k + "c"),
+            ("camel-groups", "Ab" * (n // 2) + "_"), ("underscores-around", "_" * n + "x" + "_" * n),
+            ("upper-underscore-lower", "A" * n + "_b" + "C" * n + "d"), ("lower-then-upper", "l" * n + "X" + "9" * n + "y"),
+            ("upper-digits-alternating", "A1" * (n // 2) + "b")]
+
+
+def long_identifier_shapes() -> List[Input]:
+    """(pattern, kind, run length) -> a one-definition schema; compiled under a budget of a few CPU seconds"""
+    out: List[Input] = []
+    for n in LONG_RUNS:
+        for pat, nm in long_names(n):
+            for kind, main in (
+                    ("message", f"proto a\nmessage {nm} {{\n    uint3 x = 1\n}}\n"),
+                    ("enum", f"proto a\nenum {nm} : uint3 {{\n    {nm.upper()}_V = 0\n}}\nmessage U {{\n    {nm} e = 1\n}}\n"),
+                    ("field", f"proto a\nmessage U {{\n    uint3 {nm} = 1\n}}\n"),
+                    ("alias-const", f"proto a\nconst {nm} = 2\ntype {nm}T = bool[{nm}]\nmessage U {{\n    {nm}T t = 1\n}}\n")):
+                out.append({"files": {"main.bitproto": main}, "main": "main.bitproto", "limit": 3.0,
+                            "origin": f"long-identifier:{pat}:{kind}:{n}", "family": (pat, kind), "run": n})
+    return out
 
 
 def identifier_shapes() -> List[Input]:
